@@ -340,6 +340,10 @@ def check_all(trace, props=("C07", "C08", "C09", "C11", "C12", "C13", "C17")):
                         fails["C17"].append({"leg": n, "msg": "sample %d at %r, nominal %r" % (k, float(T), float(nominal))})
                     if leg.get("write") is None:
                         fails["C17"].append({"leg": n, "msg": "sampling event did not write"})
+                if leg.get("write") is not None and isinstance(h.get("output_handler"), str) \
+                        and leg["write"] != h["output_handler"]:
+                    fails["C17"].append({"leg": n, "msg": "event of %s written to output handler %r, its configured "
+                                         "output handler is %r" % (h["class"], leg["write"], h["output_handler"])})
                 if kind == "end_of_run" and trace.get("end_of_run_time") is not None:
                     te = fr(trace["end_of_run_time"])
                     if T != te:
